@@ -18,6 +18,13 @@ Compared per schedule (in Coq, `par_run`):
       the theorem (interleaved observation = serial observation).
 Direct oracle on the implementation alone: costs = f(stored vector); exactly one successful objective call
 per design; every evaluated design persisted with its final data; parallel result = serial result.
+
+Store faults (red-team lesson: no write ever failed here): artap.datastore.sqlite3 is replaced by a proxy whose
+connections can REFUSE the write of chosen rows (sqlite3.OperationalError 'database is locked' at the INSERT, a
+failing COMMIT, a failing PRAGMA; 1..6 times in a row) and observe refusals by the real SQLite under real lock
+contention (a worker held between INSERT and COMMIT; a connection outside the evaluation holding BEGIN EXCLUSIVE; busy
+timeout shortened).  The model (Model/Parallel.v XRefused) says a refused attempt changes nothing and the write is
+retried until it goes through: exactly one objective call per design, nothing in problem.failed, rows = final data.
 """
 import contextlib
 import io
@@ -35,14 +42,20 @@ PROP = "C07"
 THEOREMS = {"Artap.Props.C07": [
     "C07_steps_commute", "C07_any_interleaving_equals_serial", "C07_serial_steps_is_job_evaluate",
     "C07_parallel_equals_evaluate_serial", "C07_objective_once_per_design", "C07_every_evaluated_design_persisted",
-    "C07_costs_belong_to_vector"]}
+    "C07_costs_belong_to_vector", "C07_refused_store_writes_invisible", "C07_refused_store_writes_once_and_persisted"]}
 AXIOMS_OK = []
 TRUSTED = [
     "Coq 8.16.1 kernel, vm_compute for model evaluation (no native_compute)",
     "hand-written small-step model Model/Parallel.v (steps of Job.evaluate at objective-call / store-sync granularity) over the data "
     "of Model/Job.v, tied to operators.py / job.py / datastore.py by this correspondence run on real joblib threads",
     "NOT modelled, exercised only (controlled schedules + free-running stress runs): CPython byte-code interleavings inside one step, "
-    "the GIL atomicity of list.append and of attribute stores, joblib's dispatch, SQLite's locking and the OperationalError retry path",
+    "the GIL atomicity of list.append and of attribute stores, joblib's dispatch, SQLite's locking protocol itself",
+    "the store write under lock contention is modelled as retry-until-success (Model/Parallel.v XRefused: a refused attempt is a step "
+    "without effect; datastore.py sync_individual calls itself again on sqlite3.OperationalError, unboundedly); tied to the code by "
+    "fault injection at sqlite3.connect (proxy installed harness-side around artap.datastore.sqlite3: the INSERT of chosen designs "
+    "raises OperationalError('database is locked') 1..6 times in a row, the COMMIT fails and is rolled back, a PRAGMA of conn() fails) "
+    "and by REAL lock contention (a worker held between INSERT and COMMIT while the others write; a connection outside the evaluation "
+    "holding BEGIN EXCLUSIVE) with the busy timeout shortened from 5 s to 8 ms, which only scales the waiting time",
     "the objective, the constraint function and VectorAndNumbers.gen_vector are oracles: scripted by the harness per (design, attempt) "
     "and given to the model as tables; the theorems hold for every oracle that does not look at the global call order",
     "np.round / sign product: binary64 driver of Run/C05Run.v, compared bit for bit; JSON/SQLite round trip of a row is C10's subject",
@@ -55,7 +68,13 @@ ASSUMPTIONS = [
     "fix of finding F8); the same object submitted twice to a parallel batch is a data race by construction",
     "every job completes: no non-transient exception and fewer than five consecutive transient failures per design (on an exception "
     "joblib cancels the remaining jobs, which the serial loop does too, but at a different point); C06 owns the raising cases",
-    "the objective returns a fresh list and does not modify the individual; the constraint function and sync_individual do not raise",
+    "the objective returns a fresh list and does not modify the individual; the constraint function does not raise",
+    "THE LOCK IS EVENTUALLY RELEASED: whoever holds the database lock commits after finitely many refusals of the other writers (every "
+    "execution contains the successful write of every evaluated design); a store that stays locked forever makes sync_individual "
+    "recurse until RecursionError, outside the property. An injected COMMIT failure rolls the transaction back (as SQLite does for "
+    "SQLITE_FULL / SQLITE_IOERR); a COMMIT that fails while the lock is kept would make the unchanged sync_individual wait for itself",
+    "sync_all (called by every algorithm's run() after its evaluations, not by Algorithm.evaluate) has no retry: an OperationalError "
+    "reaches its caller; required here only: the rows written by sync_individual are final whether or not sync_all goes through",
     "schedules are interleavings at the granularity of the property: a thread switch inside one step is exercised, not modelled",
 ]
 
@@ -182,7 +201,7 @@ class Ctl:
         self.cv.notify_all()
 
     def _record(self, task, att, kind):
-        if kind in ("obj", "sync"):          # other kinds are extra preemption points, invisible to the model
+        if kind in ("obj", "sync", "refused"):          # other kinds are extra preemption points, invisible to the model
             self.trace.append((task, att, kind))
 
     def gate(self, task, kind, att):
@@ -299,6 +318,31 @@ def pol_target(seq):
             c.off_target = True              # the wanted task is not blocked at a gate: the merge cannot be realised
         return min(c.blocked, key=lambda t: c.pos[t])
     pol.__name__ = "target"
+    return pol
+
+
+class View:
+    """what a policy looks at, restricted to some of the blocked tasks"""
+
+    def __init__(self, c, keys):
+        self.blocked = {k: c.blocked[k] for k in keys}
+        self.pos, self.trace, self.last_released = c.pos, c.trace, c.last_released
+
+
+def pol_contend(inner, r):
+    """lock contention between the workers themselves: a worker stopped between INSERT and COMMIT owns the database
+    lock and is kept there until some other worker has been refused the lock r times in a row; then it commits (the
+    lock is eventually released).  Everything else is decided by `inner`."""
+    def pol(c):
+        holders = [t for t in c.blocked if c.blocked[t][0] == "hold"]
+        if not holders:
+            return inner(c)
+        others = [t for t in c.blocked if t != holders[0]]
+        streak = c.session.streak
+        if not others or any(streak.get(t, 0) >= r for t in others):
+            return holders[0]
+        return inner(View(c, others))
+    pol.__name__ = inner.__name__.replace("pol_", "") + "+lock%d" % r
     return pol
 
 
@@ -500,19 +544,129 @@ def plain(v):
     return list(list.__iter__(v)) if isinstance(v, list) else list(v)
 
 
+UPSERT = "INSERT INTO individuals"
+LOCKED = "database is locked"
+
+
+class FaultCursor:
+    """cursor of a connection opened by artap.datastore during a run: the upsert of an individual can be REFUSED
+    (sqlite3.OperationalError 'database is locked' raised before anything is written, as SQLite does when another
+    connection holds the lock for longer than the busy timeout) according to the session's fault plan; a refusal by
+    the real SQLite (real lock contention) is counted and offered to the scheduler as a preemption point"""
+
+    def __init__(self, real, conn):
+        self._real, self._conn = real, conn
+
+    def execute(self, sql, *args):
+        conn = self._conn
+        s = conn._session
+        if not sql.startswith(UPSERT):
+            if sql.startswith("PRAGMA") and s.plan_next("P"):
+                raise conn._sqlite.OperationalError(LOCKED)        # artap's conn() catches sqlite3.Error around its PRAGMAs
+            return self._real.execute(sql, *args)
+        plan = s.plan_next("EC")
+        if plan == "E":
+            s.note_refusal(injected=True)
+            raise conn._sqlite.OperationalError(LOCKED)
+        try:
+            r = self._real.execute(sql, *args)
+        except conn._sqlite.OperationalError:
+            s.note_refusal(injected=False)
+            raise
+        conn._dirty = True
+        conn._fail_commit = conn._fail_commit or plan == "C"
+        return r
+
+    def __getattr__(self, name):
+        return getattr(self._real, name)
+
+
+class FaultConn:
+    """connection proxy: `commit` of a connection that has written a row is (a) the point where a worker can be held
+    while it owns the database lock (between INSERT and COMMIT) and (b) a second place where the write can fail: the
+    transaction is rolled back (as SQLite does for SQLITE_FULL / SQLITE_IOERR) and OperationalError is raised"""
+
+    def __init__(self, real, session, sqlite):
+        self._real, self._session, self._sqlite = real, session, sqlite
+        self._dirty = False
+        self._fail_commit = False
+
+    def cursor(self):
+        return FaultCursor(self._real.cursor(), self)
+
+    def commit(self):
+        if not self._dirty:
+            return self._real.commit()
+        self._dirty = False
+        if self._fail_commit:
+            self._fail_commit = False
+            self._real.rollback()
+            self._session.note_refusal(injected=True)
+            raise self._sqlite.OperationalError(LOCKED)
+        self._session.hold()
+        r = self._real.commit()
+        self._session.note_written()
+        return r
+
+    def __getattr__(self, name):
+        return getattr(self._real, name)
+
+
 class Sqlite3Proxy:
     """artap.datastore.sqlite3 during a run: opening a connection is an extra preemption point, so that controlled
-    schedules also put two threads inside sync_individual at the same time (no lock is held at that moment)"""
+    schedules also put two threads inside sync_individual at the same time (no lock is held at that moment); the
+    connection it returns injects / observes refused writes (FaultConn); with lock contention configured the busy
+    timeout is shortened (artap's default: 5 s), which only scales the waiting time"""
 
     def __init__(self, real, session):
         self._real, self._session = real, session
 
     def connect(self, *args, **kwargs):
         self._session.preempt()
-        return self._real.connect(*args, **kwargs)
+        busy = self._session.busy
+        if busy is not None:
+            kwargs.setdefault("timeout", busy)
+        return FaultConn(self._real.connect(*args, **kwargs), self._session, self._real)
 
     def __getattr__(self, name):
         return getattr(self._real, name)
+
+
+class LockHolder(threading.Thread):
+    """REAL lock contention from outside the evaluation: a connection of the harness's own takes the database lock
+    (BEGIN EXCLUSIVE) and keeps it until some worker has been refused `r` times in a row (or nobody wants to write),
+    then commits - the lock is eventually released -, `rounds` times"""
+
+    def __init__(self, session, sqlite, path, r, rounds):
+        super().__init__(daemon=True)
+        self.session, self.sqlite, self.path, self.r, self.rounds = session, sqlite, path, r, rounds
+        self.stop = False
+        self.held = 0
+        self.ready = threading.Event()
+
+    def run(self):
+        s = self.session
+        conn = self.sqlite.connect(self.path, timeout=2.0, isolation_level=None, check_same_thread=False)
+        try:
+            for _ in range(self.rounds):
+                if self.stop:
+                    break
+                try:
+                    conn.execute("BEGIN EXCLUSIVE")
+                except self.sqlite.OperationalError:
+                    self.ready.set()
+                    continue
+                self.held += 1
+                self.ready.set()
+                t0 = time.time()
+                while not self.stop and s.streak_max() < self.r and time.time() - t0 < 0.6:
+                    time.sleep(0.001)
+                conn.execute("COMMIT")
+                s.reset_streaks()
+                time.sleep(0.004)
+        finally:
+            self.ready.set()
+            conn.close()
 
 
 class GateStore:
@@ -535,7 +689,11 @@ class GateStore:
 
     def sync_all(self):
         if self.real is not None:
-            self.real.sync_all()
+            self.session.in_sync_all = True
+            try:
+                self.real.sync_all()
+            finally:
+                self.session.in_sync_all = False
 
     def destroy(self):
         if self.real is not None:
@@ -560,6 +718,71 @@ class Session:
         self.exc = None
         self.path = None
         self.in_evaluate = False
+        # store faults: cfg["store_faults"] = {design or "all": "EECP..."} = what happens to the successive write attempts of
+        # that design's row (E: the INSERT is refused, C: the COMMIT fails and is rolled back, P: a PRAGMA of conn() fails)
+        self.faults = {k: list(v) for k, v in (cfg.get("store_faults") or {}).items()}
+        con = cfg.get("contend") if processes > 1 else None
+        self.contend = con
+        self.busy = 0.008 if con else None
+        self.holds_left = con.get("holds", 2) if con and con["mode"] == "worker" else 0
+        self.streak = {}            # design -> refusals in a row by the real SQLite
+        self.store_stats = {"injected": 0, "real": 0, "max_streak": 0, "holds": 0, "sync_all_raised": None}
+        self.in_sync_all = False
+
+    # ---- the store as SQLite shows it to sync_individual
+    def store_key(self):
+        if self.in_sync_all:
+            return "all"
+        key = self.thread_task.get(threading.get_ident())
+        return key[0] if key is not None else None
+
+    def plan_next(self, sites):
+        """the scripted fate of the write attempt that is being made now (None = goes through)"""
+        with self.lock:
+            q = self.faults.get(self.store_key())
+            if q and q[0] in sites:
+                return q.pop(0)
+        return None
+
+    def note_refusal(self, injected):
+        t = self.store_key()
+        with self.lock:
+            self.store_stats["injected" if injected else "real"] += 1
+            if not injected:
+                self.streak[t] = self.streak.get(t, 0) + 1
+                self.store_stats["max_streak"] = max(self.store_stats["max_streak"], self.streak[t])
+        self.gate_here("refused")        # recorded in the trace (the model erases it); the other workers may run meanwhile
+
+    def note_written(self):
+        t = self.store_key()
+        with self.lock:
+            self.streak.pop(t, None)
+
+    def streak_max(self):
+        with self.lock:
+            return max(self.streak.values(), default=0)
+
+    def reset_streaks(self):
+        with self.lock:
+            self.streak.clear()
+
+    def hold(self):
+        """between INSERT and COMMIT: this thread owns the database lock; under a controlled schedule it can be kept
+        here while the other workers try to write"""
+        with self.lock:
+            go = self.holds_left > 0 and self.in_evaluate and not self.in_sync_all and not self.ctl.free
+            if go:
+                self.holds_left -= 1
+                self.store_stats["holds"] += 1
+        if go:
+            self.gate_here("hold")
+            self.reset_streaks()
+
+    def gate_here(self, kind):
+        ctl = getattr(self, "ctl", None)
+        key = self.thread_task.get(threading.get_ident())
+        if ctl is not None and key is not None and not ctl.done and self.in_evaluate:
+            ctl.gate(key[0], kind, key[1])
 
     # ---- scripted collaborators
     def objective(self, individual, real=None):
@@ -660,6 +883,10 @@ class Session:
         saved_sqlite = lab.datastore_module.sqlite3
         lab.datastore_module.sqlite3 = Sqlite3Proxy(saved_sqlite, self)
         counter0 = getattr(p.surrogate, "eval_counter", 0)
+        self.ctl.session = self
+        holder = None
+        if self.contend and self.contend["mode"] == "foreign" and real is not None:
+            holder = LockHolder(self, saved_sqlite, self.path, self.contend["r"], self.contend.get("rounds", 3))
         sched = threading.Thread(target=self.ctl.loop, daemon=True)
         out = io.StringIO()
         old_switch = sys.getswitchinterval()
@@ -669,14 +896,36 @@ class Session:
                 sys.setswitchinterval(self.switch)
             if not self.ctl.free:
                 sched.start()
+            if holder is not None:
+                holder.start()
+                holder.ready.wait(3)
             with contextlib.redirect_stdout(out), contextlib.redirect_stderr(out):
                 try:
                     self.in_evaluate = True
                     alg.evaluate(batch)
                 except BaseException as e:       # noqa: what the caller of Algorithm.evaluate sees
                     self.exc = e
+                self.in_evaluate = False
+                if holder is not None:
+                    holder.stop = True
+                    holder.join(5)
+                    self.store_stats["foreign_holds"] = holder.held
+                if cfg.get("sync_all") and self.exc is None:
+                    # what every algorithm's run() does after its evaluations; unlike sync_individual it has no retry: a
+                    # refused write reaches the caller, who (here) tries again, as a user re-running the final save would
+                    for _ in range(8):
+                        try:
+                            p.data_store.sync_all()
+                            break
+                        except saved_sqlite.OperationalError as e:
+                            self.store_stats["sync_all_raised"] = repr(e)
+                        except BaseException as e:  # noqa
+                            self.exc = e
+                            break
         finally:
             self.in_evaluate = False
+            if holder is not None:
+                holder.stop = True
             sys.setswitchinterval(old_switch)
             self.ctl.all_done()
             if sched.is_alive():
@@ -747,8 +996,6 @@ def oracle(par, ser, cfg, label):
             out.append((what, d, kind))
     if par.exc is not None:
         add("parallel evaluation raised %r for a batch whose serial evaluation completes" % (par.exc,))
-    for a in par.anomalies[:2]:
-        add(a)
     n = len(cfg["vectors"])
     for i in range(n):
         vec, costs, signed, state, feas = par.after[i][:5]
@@ -785,10 +1032,32 @@ def oracle(par, ser, cfg, label):
         s = ser.after[i]
         if not (same_vec(s[0], vec) and same_vec(s[1], costs) and same_signed(s[2], signed) and s[3] == state):
             add("design %d differs between parallel and serial evaluation of the same batch" % i, design=i, parallel=par.after[i], serial=s)
+    # nothing but a failed OBJECTIVE call puts a design into problem.failed or makes the objective run again (a write the
+    # store refuses for a while is retried by the store until it goes through): checked on both evaluations
+    for who, s in (("parallel", par), ("serial", ser)):
+        trans = sorted(tuple(bits(x) for x in c[2]) for c in s.calls if c[3] in TRANSIENT)
+        got = sorted(tuple(bits(x) for x in f[0]) for f in s.failed)
+        if trans != got:
+            add("problem.failed after the %s evaluation holds %d design(s) but %d objective call(s) failed: it is not the multiset of "
+                "the vectors whose objective call failed" % (who, len(got), len(trans)), failed=[f[0] for f in s.failed],
+                store_faults=cfg.get("store_faults"), store=s.store_stats)
+        for i in cfg["batch"]:
+            if cfg["presets"][i]:
+                continue
+            want = 1 + sum(1 for k in cfg["fails"] if k[0] == i)
+            mine = [c for c in s.calls if c[0] == i]
+            if len(mine) != want:
+                add("objective invoked %d time(s) for design %d by the %s evaluation (%d scripted failure(s) + one success expected)"
+                    % (len(mine), i, who, want - 1), design=i, calls=[(c[1], c[2], c[3]) for c in mine],
+                    store_faults=cfg.get("store_faults"), store=s.store_stats)
+        if who == "serial" and s.exc is not None:
+            add("serial evaluation raised %r" % (s.exc,), store_faults=cfg.get("store_faults"))
     if par.extra_rows:
         add("the store holds %d row(s) that belong to no design of the batch (or duplicates)" % par.extra_rows)
     if sorted(map(snap_key, par.failed)) != sorted(map(snap_key, ser.failed)):
         add("problem.failed differs (as a multiset) between parallel and serial evaluation", parallel=par.failed, serial=ser.failed)
+    for a in par.anomalies[:2]:
+        add(a)
     for i in range(n):
         if (par.rows[i] is None) != (ser.rows[i] is None) and cfg["presets"][i]:
             add("a design that was %s at entry is stored by one evaluation mode only" % cfg["presets"][i]["state"],
@@ -831,7 +1100,7 @@ def enc_side(s, ordered_calls):
 def encode(cfg, par, ser):
     outs, tape, cons = world(cfg, par.F, par.G)
     signs = [c == "maximize" for c in cfg["crit"]]
-    trace = ll([pl(nl(t if t is not None else 9999), nl(att), "GObj" if kind == "obj" else "GSync") for t, att, kind in par.ctl.trace])
+    trace = ll([pl(nl(t if t is not None else 9999), nl(att), {"obj": "GObj", "sync": "GSync"}.get(kind, "GRefused")) for t, att, kind in par.ctl.trace])
     case = "{| q_signs := %s; q_outs := %s; q_cons := %s; q_tape := %s; q_heap := %s; q_batch := %s%%nat; q_trace := %s |}" % (
         ll(signs, bl), ll(outs), ll(cons), ll(tape), ll([enc_snap(x) for x in par.before]), ll([str(i) for i in cfg["batch"]]), trace)
     ser_res = "Done" if ser.exc is None else ("Raised5" if type(ser.exc) is RuntimeError else "(RaisedFatal 98)")
@@ -937,6 +1206,62 @@ def all_merges(counts):
     yield from rec()
 
 
+PLANS = ["E", "EE", "EEE", "EEEE", "EEEEE", "EEEEEE", "C", "CC", "CCC", "CCCC", "CCCCC", "CCCCCC",
+         "EC", "CE", "ECEC", "EEECCC", "P", "PE", "PEC", "PPPP", "EPEPEP"]
+
+
+def store_fault_streams(ctx, lab, rng, acc):
+    """(1) injected refusals: the INSERT of chosen designs raises OperationalError('database is locked') k = 1..6 times in a
+    row, or the COMMIT fails (rolled back), or a PRAGMA of conn() fails, in every mix; (2) real lock contention between the
+    workers: one worker is held between INSERT and COMMIT while the others are refused r = 1..6 times in a row; (3) real
+    contention with a connection outside the evaluation; (4) the final sync_all."""
+    def base_cfg(n, fail_rate=0.0):
+        cfg = rand_cfg(rng, n, fail_rate=fail_rate, store="sqlite", pre_rate=0.0)
+        return cfg
+
+    # (1) injected, controlled schedules
+    featured = [p for p in PLANS] if ctx.thorough else ["E", "EE", "EEE", "EEEEEE", "C", "CCC", "CCCC", "EC", "PEC", "EEECCC"]
+    for rep in range(ctx.pick(1, 6)):
+        for plan in featured:
+            n = rng.choice([2, 3, 4])
+            cfg = base_cfg(n, fail_rate=rng.choice([0.0, 0.0, 0.4]))
+            cfg["store_faults"] = {t: rng.choice(PLANS) for t in range(n) if rng.random() < 0.5}
+            cfg["store_faults"][rng.randrange(n)] = plan
+            pol = rng.choice(NAMED + [pol_random(rng.getrandbits(32))] * 2)
+            one(ctx, lab, cfg, rng.choice([2, 3]), pol, pol.__name__.replace("pol_", "") + ":refused", acc)
+    # (2) a worker owns the lock between INSERT and COMMIT, the others are refused r times in a row
+    for r in (ctx.pick([3, 6, 1, 4], [1, 2, 3, 4, 5, 6, 3, 4, 6, 3])):
+        n = rng.choice([2, 3, 4])
+        cfg = base_cfg(n, fail_rate=rng.choice([0.0, 0.0, 0.3]))
+        cfg["contend"] = {"mode": "worker", "r": r, "holds": 1 if r > 3 else 2}
+        if rng.random() < 0.3:
+            cfg["store_faults"] = {rng.randrange(n): rng.choice(PLANS)}
+        inner = rng.choice([pol_lifo, pol_fifo, pol_round_robin, pol_obj_first, pol_random(rng.getrandbits(32))])
+        pol = pol_contend(inner, r)
+        one(ctx, lab, cfg, rng.choice([2, 3]) if n > 2 else 2, pol, pol.__name__ + ":locked", acc)
+    # (3) a connection outside the evaluation owns the lock until a worker has been refused r times in a row
+    for r in ctx.pick([3, 4], [1, 2, 3, 4, 5, 6, 3, 4]):
+        cfg = base_cfg(rng.choice([2, 3, 4]))
+        cfg["contend"] = {"mode": "foreign", "r": r, "rounds": 2}
+        pol = rng.choice([pol_lifo, pol_round_robin, pol_obj_first])
+        one(ctx, lab, cfg, 2, pol, pol.__name__[4:] + ":foreign-lock", acc)
+    for j in range(ctx.pick(2, 24)):
+        cfg = base_cfg(rng.choice([6, 8, 12]), fail_rate=0.2)
+        cfg["contend"] = {"mode": "foreign", "r": rng.choice([3, 3, 4, 6]), "rounds": 3}
+        one(ctx, lab, cfg, 8, None, "free:foreign-lock", acc, switch=1e-6)
+        acc["hist"]["free_running"] += 1
+    # (4) sync_all after the batch (what every algorithm's run() ends with), refused or not
+    for plan in ctx.pick([None, "E", "C"], [None, "E", "C", "EE", "EC", "P", "CCC"]):
+        n = rng.choice([2, 3, 4])
+        cfg = base_cfg(n)
+        cfg["sync_all"] = True
+        cfg["store_faults"] = {t: rng.choice(PLANS) for t in range(n) if rng.random() < 0.3}
+        if plan:
+            cfg["store_faults"]["all"] = plan
+        pol = rng.choice(NAMED)
+        one(ctx, lab, cfg, 2, pol, pol.__name__[4:] + ":sync_all", acc)
+
+
 # ----------------------------------------------------------------------------- main
 def one(ctx, lab, cfg, k, policy, label, acc, switch=None):
     if len(ctx.oracle_failures) >= 40 and acc["hist"]["schedules"] >= 12:
@@ -953,7 +1278,9 @@ def one(ctx, lab, cfg, k, policy, label, acc, switch=None):
                         "scripted_failures": {"%d:%d" % kk: v for kk, v in cfg["fails"].items()},
                         "state_at_entry": {str(i): p["state"] for i, p in enumerate(cfg["presets"]) if p}, "gate_trace": trace[:80],
                         "final_parallel": par.after, "final_serial": ser.after, "rows_parallel": par.rows,
-                        "exception": repr(par.exc) if par.exc else None, "anomalies": par.anomalies[:3]})
+                        "exception": repr(par.exc) if par.exc else None, "anomalies": par.anomalies[:3],
+                        "store_faults": {str(k): v for k, v in (cfg.get("store_faults") or {}).items()}, "contention": cfg.get("contend"),
+                        "sync_all": bool(cfg.get("sync_all")), "store_refusals": par.store_stats})
     for what, detail, kind in oracle(par, ser, cfg, label):
         if len(ctx.oracle_failures) < 40:
             ctx.oracle_failures.append({"what": what, "input": detail, "match": {"kind": kind}})
@@ -971,8 +1298,20 @@ def one(ctx, lab, cfg, k, policy, label, acc, switch=None):
     h["stalls"] += par.ctl.stalls
     h["surrogate_eval_counter_lost_updates"] += max(0, len(par.calls) - par.counter_delta)     # statistics counter, not part of C07
     h["off_target"] += 1 if getattr(par.ctl, "off_target", False) else 0
+    st = h["store"]
+    st["refusals_injected"] += par.store_stats["injected"] + ser.store_stats["injected"]
+    st["refusals_by_sqlite"] += par.store_stats["real"]
+    st["longest_refusal_streak"] = max(st["longest_refusal_streak"], par.store_stats["max_streak"])
+    st["workers_held_between_insert_and_commit"] += par.store_stats["holds"]
+    st["sync_all_refused"] += 1 if par.store_stats["sync_all_raised"] else 0
+    if cfg.get("store_faults"):
+        st["schedules_with_injected_refusals"] += 1
+    if cfg.get("contend"):
+        ok = par.store_stats["max_streak"] >= cfg["contend"]["r"]
+        st["contention_realised" if ok else "contention_not_realised"] += 1
     h["max_wall_s"] = max(h["max_wall_s"], round(par.wall, 3))
-    serial_like = all(trace[j][0] == trace[j + 1][0] or trace[j][2] == "sync" for j in range(len(trace) - 1))
+    gates = [e for e in trace if e[2] != "refused"]
+    serial_like = all(gates[j][0] == gates[j + 1][0] or gates[j][2] == "sync" for j in range(len(gates) - 1))
     ctx.count((label.split(":")[0], k, len(cfg["batch"]), cfg["store"], tuple((t, kind) for t, _, kind in trace)),
               nontrivial=not serial_like and len(trace) >= 4)
     if not serial_like and len(trace) <= 12:
@@ -987,7 +1326,10 @@ def run(ctx):
     acc = {"cases": [], "expected": [], "meta": [],
            "hist": {"schedules": 0, "by_policy": {}, "by_batch_size": {}, "by_workers": {}, "by_store": {}, "by_objective": {}, "scheduler_decisions": 0, "with_transient_failures": 0,
                     "gate_events": 0, "objective_calls": 0, "stalls": 0, "surrogate_eval_counter_lost_updates": 0, "off_target": 0, "max_wall_s": 0.0, "free_running": 0,
-                    "exhaustive_merges": 0}}
+                    "exhaustive_merges": 0,
+                    "store": {"refusals_injected": 0, "refusals_by_sqlite": 0, "longest_refusal_streak": 0,
+                              "workers_held_between_insert_and_commit": 0, "sync_all_refused": 0, "schedules_with_injected_refusals": 0,
+                              "contention_realised": 0, "contention_not_realised": 0}}}
     # ---- corpus: the schedules named in the design, on a fixed batch, both stores
     for store in ("sqlite", "memory"):
         for n, k in ((2, 2), (4, 2), (6, 3), (5, 4)):
@@ -1008,6 +1350,9 @@ def run(ctx):
         cfg = rand_cfg(rng, rng.choice([3, 4, 5]), fail_rate=0.2, pre_rate=0.15, stale_rate=0.35)
         pol = rng.choice(NAMED)
         one(ctx, lab, cfg, rng.choice([2, 3]), pol, pol.__name__[4:] + ":stale", acc)
+    # ---- the store refuses writes (red-team lesson): sync_individual must absorb it - retry until the row is written -
+    # without the evaluation noticing: exactly one objective call per design, nothing in problem.failed, rows = final data
+    store_fault_streams(ctx, lab, rng, acc)
     # ---- generated controlled schedules
     n_sched = ctx.pick(24, 400)
     for j in range(n_sched):
@@ -1064,7 +1409,10 @@ def run(ctx):
                 "Algorithm.evaluate with max_processes 2..4 (8 free-running) under one schedule of the worker threads, plus the real serial "
                 "evaluation of the same batch; non-trivial = the observed gate trace is not the serial order (some job passes a gate while "
                 "another job is between its objective call and its sync); distinct = distinct (policy, workers, batch size, store, "
-                "sequence of (design, gate) events)")
+                "sequence of (design, gate) events); store-fault stream: the write of chosen rows is refused 1..6 times in a row at the "
+                "INSERT / at the COMMIT / in conn()'s PRAGMAs (injected), or by real lock contention (worker held between INSERT and COMMIT "
+                "until another worker has been refused r = 1..6 times; foreign connection holding BEGIN EXCLUSIVE), plus sync_all after "
+                "the batch")
     ctx.extra.update({"schedules": acc["hist"]["schedules"], "distribution": acc["hist"]})
 
 
@@ -1080,10 +1428,17 @@ LEVEL_TEXT = ("Machine-checked Coq theorems over a small-step model of parallel 
               "objective and in sync_individual, further preemption points at shared-Problem attribute writes, problem.failed updates, "
               "SQLite connects and - with artap's own benchmark problems as objective - at every element read inside the real "
               "evaluate(); real SQLite file read back through ProblemViewDataStore) and comparing trace, final state and rows with the "
-              "model evaluated in Coq, and with a real serial evaluation of the same batch.")
+              "model evaluated in Coq, and with a real serial evaluation of the same batch. Store writes refused by SQLite are modelled "
+              "as effect-free XRefused steps (retry until success; theorems C07_refused_store_writes_*: any number of refusals anywhere, "
+              "same observation as serial, one successful objective call per design, nothing added to problem.failed, every row "
+              "final) and exercised by fault injection at sqlite3.connect and by real lock contention; observed refusals are part of "
+              "the trace the Coq driver replays.")
 LEVEL_NOTE = ("proof, partial. Not modelled but exercised (controlled schedules, all merges for batches <= 4 and 200 free-running 8-worker "
               "runs with sys.setswitchinterval(1e-6) in the thorough tier): CPython byte-code interleavings inside a step, GIL atomicity "
-              "of list.append / attribute stores, joblib dispatch, SQLite locking and the OperationalError retry. Hypotheses: the "
+              "of list.append / attribute stores, joblib dispatch, SQLite's locking protocol. The OperationalError retry of "
+              "sync_individual is modelled (effect-free refused attempts) under the assumption that the lock is eventually released, "
+              "and driven by injected refusals (1..6 in a row, at INSERT / COMMIT / PRAGMA) and real contention (busy timeout "
+              "shortened to 8 ms). Hypotheses: the "
               "objective outcome and the replacement vector depend on (design, attempt, vector), not on the global call order (local_env); "
               "batch of pairwise distinct designs; every job completes (raising jobs: C06). Trusted: Coq kernel + "
               "vm_compute, the hand-written model, the Python harness (thread gates, job-end notification proxy around evaluator.job).")
